@@ -260,7 +260,7 @@ package consensus
 //@   ensures [C19] @wellFormed implies(result == nil, rmwf(m))
 
 // assumed about the neighbouring packages (internal/crypto, internal/merkle): the hash is a function of the bytes,
-// a tree over a non-empty list has a root, a signature is checked over its first 64 bytes
+// a tree over a non-empty list has a root (the signature helpers of internal/crypto have their own proved contracts)
 //@ ghost gHashed Int
 //@ ghost gLastHash Ref
 //@ extern crypto.Hash256
@@ -271,8 +271,6 @@ package consensus
 //@   ensures implies(len(arg0) > 0, result != nil)
 //@ extern merkle.(*Tree).Root
 //@   ensures result != nil
-//@ extern crypto.(ECDSAPub).Verify
-//@   requires len(arg1) >= 64
 //@ func (commit).Signature
 //@   ensures [C19] @fixedLength len(result) == 64
 //@ func (amevCommit).Signature
